@@ -24,7 +24,7 @@ MODES = ["O0", "O1"]      # junk handling must not depend on assert statements e
 TIERS = {"quick": {"runs": 1600, "wall": 55}, "thorough": {"runs": 25000, "wall": 1500}}
 RULE = ("plan = base directory (1..7 well-formed PELs) + 1..4 junk items (torn/lost/flip/garbage/foreign copies "
         "of the plan's own PELs, biased into headers, length fields and the callout area) + 0..2 subdirectories "
-        "+ option set; every directory mode (-l -a -n --plid --src --src-exclude -j, with -x/-r variants) runs "
+        "+ in 6% of the plans a crowd of 25..40 files cut inside the headers + option set; every directory mode (-l -a -n --plid --src --src-exclude -j, with -x/-r variants) runs "
         "on B, on B+J and on each junk item alone, each with a seeded readdir order.  distinct_nontrivial "
         "counts distinct abstract traces (mode, junk kinds present, junk classification per mode, number of "
         "base PELs reported) among mode executions with at least one junk item present.")
@@ -33,7 +33,7 @@ COMPONENTS = {"real": ["pel.peltool.peltool.main() in-process, all decoders"],
 ASSUMPTIONS = ["a damaged copy that a mode still decodes is legitimately reported and is excluded from the equality relation for that mode (it still must not break well-formedness of stdout)",
                "stdout of --json is not required to be JSON (its product is files); the set and bytes of output files are compared instead",
                "half of the plans run in `python -O` interpreters"]
-PROBES = ["leftover_output_file", "class_search_junk", "junk_other_creator", "junk:torn", "junk:flip", "junk:lost", "junk:garbage", "junk:foreign", "subdir", "junk_still_decodable",
+PROBES = ["junk_crowd", "leftover_output_file", "class_search_junk", "junk_other_creator", "junk:torn", "junk:flip", "junk:lost", "junk:garbage", "junk:foreign", "subdir", "junk_still_decodable",
           "junk_shares_eid", "mode:-j", "mode:--src-exclude", "hex"]
 
 DIR_MODES = ["-l", "-a", "-n", "--plid", "--src", "--src-exclude", "-j"]
@@ -83,6 +83,10 @@ def gen_plan(rng, tier, run):
             "ext": ".pel" if rng.random() < 0.15 else None,
             "hex": rng.random() < 0.25,
             "leftover": rng.randrange(1, 1 << 16) if rng.random() < 0.3 else 0,
+            # a crowd of undecodable files (a typo'd -p, a directory shared with other data): cut inside the headers,
+            # so junk by construction; sorts before or after the healthy PELs
+            "crowd": {"n": rng.randint(25, 40), "off": rng.choice([1, 8, 20, 47]), "prefix": rng.choice(["00", "00", "zz"])}
+            if rng.random() < 0.06 else None,
             "class_search": rng.randrange(1, 1 << 16) if rng.random() < 0.3 else 0,
             "stdout_encoding": rng.choice(["utf-8", "utf-8", "utf-8", "ascii", "latin-1"]),
             "plid": "%08X" % some["plid"],
@@ -203,7 +207,7 @@ def execute(plan):
             runs = {}
             for tag, items in (("B", []), ("ALL", plan["junk"]),
                                ("Q", [j for j, q in zip(plan["junk"], qualifies) if q])):
-                if tag == "Q" and len(items) == len(plan["junk"]) and not False:
+                if tag == "Q" and len(items) == len(plan["junk"]):
                     runs["Q"] = runs["ALL"]
                     continue
                 d = tag
@@ -221,6 +225,13 @@ def execute(plan):
                         nm = names[plan["leftover"] % len(names)]
                         w.put("OUT-%s/%s" % (d, nm), [b"", b"{\n    \"Private Header\": {", b"\x00\x00\x00"][plan["leftover"] % 3])
                         bump("leftover_output_file")
+                if tag != "B" and plan.get("crowd"):
+                    cr = plan["crowd"]
+                    cdata = pelgen.build(plan["files"][0]["recipe"])[:cr["off"]]
+                    for ci in range(cr["n"]):
+                        w.put("%s/%scrowd%02d" % (d, cr["prefix"], ci), cdata)
+                    if tag == "ALL":
+                        bump("junk_crowd")
                 if tag != "B":
                     for sd in plan["subdirs"]:
                         w.mkdir(d + "/" + sd["name"])
@@ -232,7 +243,7 @@ def execute(plan):
                 h.update(r.stdout.encode())
                 runs[tag] = (r, outputs(w, d))
             rb, ob = runs["B"]
-            ctxj = "junk=%s subdirs=%s" % ([(j["name"], j["junk"]) for j in plan["junk"]], [s["name"] for s in plan["subdirs"]])
+            ctxj = "junk=%s subdirs=%s crowd=%s" % ([(j["name"], j["junk"]) for j in plan["junk"]], [s["name"] for s in plan["subdirs"]], plan.get("crowd"))
             # (1)(2)(4) on everything
             for tag in ("B", "ALL", "Q"):
                 r, o = runs[tag]
@@ -355,6 +366,10 @@ def shrink_candidates(plan, violation):
             c = P()
             c["modes"] = [m]
             yield c
+    if plan.get("crowd"):
+        c = P()
+        c["crowd"] = None
+        yield c
     for k in ("junk", "subdirs", "files"):
         for i in range(len(plan[k]) - 1, -1, -1):
             if k == "files" and len(plan["files"]) == 1:
